@@ -23,6 +23,13 @@ CHECKS = {
          '13 queries per library on cells and references (repetitions applied or attached, depth limits, tag filters, paths, labels), deep copy + mutate + free, '
          'then flatten and re-query; polygon sets matched vertex by vertex, path results as guarded regions',
          'leaf path outlines observed from to_polygons of the untransformed leaf; all paths scale their width; at most 300 flattened instances per library', '7/C06'),
+ 'C08': ('exploration', 'reference-semantics monitor: analytic sections (segment, arc, Bezier, parametric families) and width/offset laws rebuilt from the call arguments; queries, spine, element centres and winding-number probes of the outline compared with them; under ASan+UBSan',
+         'per call: section count, one width and one offset law per section per element, end point; position/gradient/width/offset at integer (both sides), interior and out-of-range parameters; '
+         'spine() and element_center(): returned points on the analytic curve, analytic curve within 3 tolerances of the polyline; outline: points inside the band inside, points beyond every section, joint and cap outside, '
+         'joints covered, end planes for all four end styles; transforms at the end or in the middle of the history',
+         'oracle in py/c08.py; Hobby control points are observed then verified (pass-through, tangent continuity); laws kept continuous; cusps, curvature radius below 2.5 x (half width + offset), '
+         'self-approach and joints sharper than 100 degrees are outside the domain and counted; continuation of a section beyond its end at a kinked joint is only judged where two natural continuations agree; '
+         'error codes from the intersection search are advisory and only counted', '7/C08'),
  'C09': ('exploration', 'reference-model monitor: extrema and hull predicates over the hand-flattened geometry vs bounding_box/convex_hull with fresh, shared and repeated caches',
          'boxes must equal the extrema of all flattened geometry points, hulls must contain every point and have only geometry points as corners, cached == uncached',
          'leaf path outlines observed from to_polygons; libraries sampled with degenerate leaves, explicit offset lists and rotated references forced in', '7/C09'),
